@@ -139,6 +139,37 @@ pub fn c07(cx: &Ctx) -> (Vec<Violation>, Cover) {
                 cov.count("refcount_multi_step_or_zero_mid_tree", 1);
             }
         }
+        // an explicit collection despawns every ref-counted reactor that nothing holds any more
+        if refcounted && !reported {
+            for c in a.cmds.iter().filter(|c| matches!(c.act, RAct::Gc)) {
+                let (Some(pre), Some(post)) = (c.pre, c.post) else { continue };
+                if published > pre || a.sys_alive_at(pre, inst) != Some(true) {
+                    continue;
+                }
+                // a despawn reaction that was scheduled but has not run yet owns a clone of the handle (even if the
+                // registration itself was revoked meanwhile)
+                let pending_despawn_reaction = a.regs.iter().any(|r| {
+                    let (RTrig::Desp(e), Some(f)) = (r.trig, r.fired) else { return false };
+                    if r.inst != inst || f >= pre {
+                        return false;
+                    }
+                    // every fired registration schedules one reaction; all of them must have finished
+                    let fired = a.regs.iter().filter(|r2| r2.inst == inst && r2.trig == r.trig && r2.fired == Some(f)).count();
+                    let done = a.runs.iter().filter(|run| run.inst == inst && run.obs.desp == Some(e) && run.pos > f && run.busy_end < pre).count();
+                    done < fired
+                });
+                if holding_at(a, inst, pre) == 0 && !pending_despawn_reaction && a.sys_alive_at(post, inst) == Some(true) {
+                    cov.count("explicit_collections_checked", 1);
+                    v.push(Violation::new(
+                        "C07",
+                        format!("C07/not-collected-by-explicit-gc/{mode}"),
+                        format!("instance {inst} ({mode}) had no holder at {pre} but survived the explicit collection {pre}..{post}"),
+                        post,
+                    ));
+                    break;
+                }
+            }
+        }
         if info.canary_drops.len() > 1 {
             v.push(Violation::new("C07", "C07/state-dropped-twice", format!("captured state of instance {inst} dropped {} times", info.canary_drops.len()), info.canary_drops[1]));
         }
